@@ -409,6 +409,41 @@ def check_fresh(run, repo, init_attrs):
                                     run.violation('C20-A', m.relpath, fi.qualname, norm_stmt(n, 80),
                                                   'instance attribute %s holds a closure / bound method: copy.deepcopy does not copy '
                                                   'function objects, so a snapshot would keep operating on the original instance' % t.attr)
+    # the architectural state is created in the constructor (not lazily, at a moment that depends on history / other instances)
+    assigned = {}
+    for n in ast.walk(init.node):
+        if isinstance(n, ast.Assign):
+            for t in n.targets:
+                if isinstance(t, ast.Attribute) and ast.unparse(t.value) == 'self':
+                    assigned[t.attr] = n.value
+    for a in sorted(ARCH_STATE):
+        v = assigned.get(a)
+        if not isinstance(v, ast.Call):
+            ok = False
+            run.violation('C20-A', arm.relpath, 'ArmV6.__init__', 'architectural state ' + a,
+                          'self.%s is not constructed in ArmV6.__init__: state built later (lazily) is built from whatever the global '
+                          'configuration holds at that moment, i.e. it depends on what other instances did in between' % a)
+    # no memoisation / lazy-initialisation machinery anywhere in the package
+    for m in repo.modules.values():
+        for node in ast.walk(m.tree if hasattr(m, 'tree') else ast.parse(m.source)):
+            if isinstance(node, (ast.FunctionDef, ast.AsyncFunctionDef)):
+                for d in node.decorator_list:
+                    dn = ast.unparse(d.func if isinstance(d, ast.Call) else d)
+                    if dn.split('.')[-1] in ('lru_cache', 'cache', 'cached_property', 'memoize', 'memoized'):
+                        ok = False
+                        run.violation('C20-A', m.relpath, node.name, 'decorator @' + dn,
+                                      'memoisation: the result of %s depends on earlier calls (a stale entry survives changes of the '
+                                      'state / memory it was computed from, and for functions or methods the cache is shared by all '
+                                      'instances)' % node.name)
+                if any(ast.unparse(d) == 'property' for d in node.decorator_list):
+                    for sub in ast.walk(node):
+                        if isinstance(sub, (ast.Assign, ast.AugAssign)):
+                            tg = sub.targets if isinstance(sub, ast.Assign) else [sub.target]
+                            if any(isinstance(t, ast.Attribute) and ast.unparse(t.value) == 'self' for t in tg):
+                                ok = False
+                                run.violation('C20-A', m.relpath, node.name, 'property getter assigns self.' + ast.unparse(tg[0]).split('.', 1)[1],
+                                              'a property getter that stores into the instance is lazily initialised state: its value '
+                                              'depends on when it is first read')
     run.instance('C20-A', 'constructor state', ok=ok, sample={'attributes': init_attrs})
     # from_memory_list returns a freshly built hub
     hub = repo.cls('MemoryControllerHub')
